@@ -197,6 +197,23 @@ values / episode starts, bootstrapped with the rollout's `lastValues` and `1 - l
 def advantagesOf (γ lam : α) (ro : Rollout O A α) (e : Nat) : List α :=
   SB3Verif.Rollout.gaeCol γ lam (ro.lastValues e) (1 - boolS (ro.lastDones e)) (gaeSteps ro.rows e)
 
+/-! Specification vocabulary for the end-to-end statement (used by the theorems in `Props/C06.lean`):
+the ingredients of GAE written directly on the *externals* of the rollout, not on the buffer. -/
+
+/-- `done` of step `k` of environment `e` (`false` outside the rollout). -/
+def doneAt (xs : List (StepIn O A α)) (e k : Nat) : Bool :=
+  match xs[k]? with
+  | some x => (x.out e).done
+  | none => false
+
+/-- TD residual of step `k` of environment `e` on the externals: (possibly time-limit bootstrapped) reward
+`+ γ · V(observation returned by step k) · (1 − done of step k) − V(observation the policy saw at step k)`. -/
+def tdAt (γ : α) (V : O → α) (c : Carry O) (xs : List (StepIn O A α)) (e k : Nat) : α :=
+  match (c :: xs.map carryOf)[k]?, xs[k]? with
+  | some p, some x =>
+    rewardOf γ V (x.out e) + γ * V ((x.out e).obs) * (1 - boolS (x.out e).done) - V (p.lastObs e)
+  | _, _ => 0
+
 /-- `returns = advantages + values` -/
 def returnsOf (γ lam : α) (ro : Rollout O A α) (e : Nat) : List α :=
   SB3Verif.Rollout.returnsCol (advantagesOf γ lam ro e) (gaeSteps ro.rows e)
